@@ -68,7 +68,7 @@ def describe(sim, ss):
         for m in getattr(sim, grp)():
             mods.append((m.name, grp, isinstance(m, ss.Disease), [float(x) for x in m.t.abstvec], m))
     for intv in sim.interventions():
-        if getattr(intv, 'product', None) is not None:
+        if getattr(intv, 'product', None) is not None and not any(intv.product is m[4] for m in mods):      # a product shared by several interventions is ONE module
             p = intv.product
             mods.append((p.name, 'products', isinstance(p, ss.Disease), [float(x) for x in p.t.abstvec], p))
     # module objects, not names, identify the owners of schedule rows: two products may share their (default) name
@@ -150,7 +150,7 @@ def run(ctx):
                        'with per-module dt/unit/start/stop overrides on year- and day-based sims; the model plan and executed clock trace are compared '
                        'row by row with sim.loop.plan and a single-stepped real run; non-trivial = at least one module on a timeline different from the sim')
     terms, metas = [], []
-    n = ctx.n(17, 300)
+    n = ctx.n(18, 300)
     mingap = 1e9
     def forced(c):
         """calendar sims whose step is not one unit, with modules on another unit / step (always included)"""
@@ -167,11 +167,14 @@ def run(ctx):
         if c == 4:      # two interventions, each with its own product of the same (default) name
             kw = dict(unit='year', dt=1.0, start=2000, dur=5)
             return ss.Sim(n_agents=30, diseases=ss.SIR(), networks=ss.RandomNet(), interventions=[ss.routine_vx(name='vxa', start_year=2000, prob=0.1, product=ss.sir_vaccine()), ss.routine_vx(name='vxb', start_year=2001, prob=0.2, product=ss.sir_vaccine(efficacy=0.5))], verbose=0, **kw), kw
+        if c == 5:      # one product object shared by two interventions
+            kw = dict(unit='year', dt=1.0, start=2000, dur=5); shared = ss.sir_vaccine()
+            return ss.Sim(n_agents=30, diseases=ss.SIR(), networks=ss.RandomNet(), interventions=[ss.routine_vx(name='vxa', start_year=2000, prob=0.1, product=shared), ss.routine_vx(name='vxb', start_year=2001, prob=0.2, product=shared)], verbose=0, **kw), kw
         kw = dict(unit='week', dt=2.0, start='2020-01-01', dur=12)
         return ss.Sim(n_agents=30, diseases=ss.SIS(unit='day', dt=7.0), networks=ss.RandomNet(dt=4.0), interventions=ProbeIntv(name='pintv0', unit='week', dt=1.0), verbose=0, **kw), kw
     for c in range(n):
         try:
-            sim, simkw = forced(c) if c < 5 else make_sim(ss, rng)
+            sim, simkw = forced(c) if c < 6 else make_sim(ss, rng)
             sim.init()
         except Exception as E:
             ctx.dist('config rejected by constructor: ' + type(E).__name__); continue
